@@ -36,6 +36,8 @@ def run(chk):
              "empty -> return; disjoint -> continue; pieces appended in results_ order inside the forward loop over the input paths")
     chk.rule("T.lines-dispatch", "crossing dispatch of RectClipLines64::ExecuteInternal on all (prev, loc) pairs: entering -> Add(ip, start new piece); "
              "leaving -> Add(ip); passing through -> first crossing (taken from the other end of the segment) starts a piece, then Add(ip)")
+    chk.rule("START.location", "the location RectClipLines64::ExecuteInternal starts its scan with is the truth about the path's first vertex (its region; on the "
+             "boundary: Inside iff the next vertex off the boundary is inside, else the side; the whole path is copied only when no vertex is off the boundary) - 729 scenarios")
     chk.rule("SCAN.start", "the segment scan of ExecuteInternal starts at segment 1 on every path (constant propagation of the cursor: the pre-scan for a "
              "vertex off the boundary must not leave it advanced)")
     chk.rule("LOOP", "nothing written while clipping one polyline is read while clipping the next")
@@ -54,6 +56,7 @@ def run(chk):
         e3.lines_shortcuts(db, chk, cfg)
         e3.lines_dispatch(db, chk, cfg)
         e3.scan_start_rule(db, chk, cfg, "RectClipLines64::ExecuteInternal", 1)
+        e3.start_location_rule(db, chk, cfg, qual="RectClipLines64::ExecuteInternal", anchor="first")
         eng = e2.E2(db, chk, cfg, ["RectClip64", "RectClipLines64"])
         e2.check_classification(eng, RECT, chk, "RectClip64")
         f = db.one("RectClipLines64::Execute")
